@@ -114,7 +114,34 @@ def schedJudge (f : List String) (out : String) : String :=
     else "ok"
   | _, _ => "bad:unparsable:" ++ out
 
+/-
+  c14.expiry  scenario(single|retry) failTimeoutMs lateMs
+     out = three probes "fails/d|u" joined by ","  (at recording+100ms, recording+fail_timeout-150ms, recording+fail_timeout+250ms)
+-/
+def showProbe (p : Int × Bool) : String := toString p.1 ++ (if p.2 then "d" else "u")
+
+def expiryModel : List String → String
+  | [sc, ft, late] =>
+    match ft.toNat?, late.toNat? with
+    | some ft, some late =>
+      match expiryScenario (sc == "retry") ft late with
+      | some ps => ",".intercalate (ps.map showProbe)
+      | none => "model-stuck"
+    | _, _ => "bad-case"
+  | _ => "bad-case"
+
+def parseProbe (s : String) : Option (Int × Bool) :=
+  if s.endsWith "d" then (parseIntD (s.dropEnd 1).toString).map (·, true)
+  else if s.endsWith "u" then (parseIntD (s.dropEnd 1).toString).map (·, false)
+  else none
+
+def expiryJudge (_f : List String) (out : String) : String :=
+  match (out.splitOn ",").mapM parseProbe with
+  | some ps => verdictExpiry ps
+  | none => "bad:unparsable:" ++ out
+
 def streams : List Driver.Stream := [
+  { name := "c14.expiry", model := expiryModel, judge := expiryJudge },
   { name := "c14.sched", model := schedModel, judge := schedJudge }
 ]
 
